@@ -144,3 +144,24 @@ Definition C13_stop_final_num : Prop :=
     snd res = JStop ->
     exists pre e, fst res = pre ++ [e] /\ eblk e = bS /\
       from_num start (map eblk (fst res)) = seg_num start (j_stop c) canon.
+
+(* The same resumed from a cursor on a final canonical block L (cursor block = cursor LIB; hypotheses of
+   C07_seamless_cursor_final_full), stop block S a block of the chain above the cursor block: the stream that ends with
+   stop-block-reached has delivered exactly the canonical blocks above the cursor block up to block S itself, S last. *)
+Definition C13_stop_final_cursor : Prop :=
+  forall (U : list block) (c : jcfg) (w : world) (ps : list (N * N)) (merged_end : N) (canon forked : list block)
+         (cu : cursor) (L : block) (rest : list block),
+    wf_b U = true -> lib_ok_b LNone U = true ->
+    hub_of_universe U c w ->
+    chain_ok canon -> incl canon U ->
+    let merged := filter (fun b => bnum b <? merged_end) canon in
+    eventual_tip c w canon ->
+    j_mode c = 1 -> j_cursor c = Some cu -> j_filter c = 1 ->
+    0 < j_bundle c -> Forall (fun b => bnum b < file_bound) merged ->
+    on_final_block cu = true ->
+    from_num (rn (cu_lib cu)) canon = L :: rest -> bref L = cu_lib cu -> bref L = cu_blk cu ->
+    let res := stream_run c w ps merged_end merged forked in
+    forall bS, In bS canon -> bnum bS = j_stop c -> rn (cu_lib cu) < j_stop c ->
+    snd res = JStop ->
+    exists pre e, fst res = pre ++ [e] /\ eblk e = bS /\
+      map eblk (fst res) = seg_num (rn (cu_lib cu) + 1) (j_stop c) canon.
